@@ -239,6 +239,13 @@ func main() {
 		}
 	}
 
+	writeImp := func(name, imports, body string) {
+		hdr := "/- GENERATED by go/cmd/extract from " + *repo + " — do not edit; regenerated on every check run. -/\n" + imports + "namespace GoIpa.Gen\n\n"
+		if err := os.WriteFile(filepath.Join(*out, name), []byte(hdr+body+"\nend GoIpa.Gen\n"), 0o644); err != nil {
+			die("%v", err)
+		}
+	}
+
 	// ---------------------------------------------------------------- Consts
 	{
 		var b strings.Builder
@@ -466,6 +473,9 @@ func main() {
 
 	// ---------------------------------------------------------------- Execute (translated)
 	translateExecute(*repo, write)
+
+	// ---------------------------------------------------------------- fr limb code (translated)
+	translateLimbs(*repo, writeImp)
 	fmt.Println("extract: ok")
 }
 
